@@ -264,7 +264,8 @@ def register(T, repo):
 
     c = T.add(FContract(
         S + 'scan', ghosts=scan_ghost, params=scan_params,
-        result=lambda A: tm.DocList(A['src']),
+        result=lambda A: ListS(tm.DocTok(A['src']), None, 'scanned',
+                               fresh=True),
         ensures=[('empty-iff', lambda A, r: (zint(r.length()) == 0) ==
                   (zint(A['src'].ln) == 0))],
         effects=scan_effects))
